@@ -183,7 +183,7 @@ view (= `begin_parse`) pair with `view (mk bits refs) = (bits, refs)`, whenever 
 `snakeDepth p n = 0` if `n ≤ (1023-p)/8`, else `⌈(n - (1023-p)/8) / 127⌉` (`p` = bits already in the first builder).
 Where exactly the library raises: the `end_cell` calls inside `store_snake_bytes` build the tail cells, whose depths are
 `0 .. snakeDepth-1`, so `store_snake_bytes` itself raises iff `snakeDepth > 1024`; the root gets depth `snakeDepth`, so its
-own `end_cell` raises iff `snakeDepth > 1023`.  Not proved: the produced tree is not related to `Spec.Tlb.snakeCell`.
+own `end_cell` raises iff `snakeDepth > 1023`.  `c06_snake_is_snakedata`: the produced tree is `Spec.Tlb.snakeCell` of the chunks.
 Python's recursion limit is outside the model (both loops are iterative since fix 9b1112f). -/
 
 /-- snake round trip for ANY cell constructor: what `store_snake_bytes(bs)` appended after the content
@@ -263,6 +263,20 @@ theorem c06_snake_depth_exact (H : Bytes → Bytes) (bs : Bytes) (hw : Bytes.WF 
   refine ⟨hc.depth, ?_, ?_⟩
   · rw [mkC_isSome_iff H b'.bits b'.refs hc.bits (by have := hc.refs; omega) hc.wf, hc.depth]
   · exact c06_snake_any_constructor (mkC H) viewC (viewC_mkC H) bs hw b b' hb hr e
+
+/-- the cells form the TL-B `SnakeData` chain (`Spec.Tlb.snakeCell`): whenever `store_snake_bytes` with the real
+`end_cell` returns, the root read as a bare tree (`cellToS`: data bits and references, kinds dropped) is
+`snakeCell first rest` with `first` = what the builder held ++ the first `(1023-p)/8` bytes and `rest` = the
+127-byte chunks of the remaining bytes, and the data of that chain (`snakeData`) is what the builder held followed by
+exactly the stored bytes. -/
+theorem c06_snake_is_snakedata (H : Bytes → Bytes) (bs : Bytes) (b b' : Builder Cell) (hb : Proofs.Builder.Inv b)
+    (hr : b.refs = []) (h : BOp.storeSnake (mkC H) bs b = (b', true)) :
+    SCell.mk b'.bits (b'.refs.map cellToS) =
+      snakeCell (b.bits ++ bytesToBits (bs.take ((1023 - b.bits.length) / 8)))
+        ((chunks127 (bs.drop ((1023 - b.bits.length) / 8))).map bytesToBits) ∧
+    snakeData (b.bits ++ bytesToBits (bs.take ((1023 - b.bits.length) / 8)))
+        ((chunks127 (bs.drop ((1023 - b.bits.length) / 8))).map bytesToBits) = b.bits ++ bytesToBits bs :=
+  chain_shape (mkC H) cellToS (cellToS_mkC H) bs b b' hb.1 hr h
 
 /-! ### non-vacuity -/
 
@@ -401,5 +415,8 @@ example : Proofs.Builder.Inv (⟨[true, false, true], []⟩ : Builder Cell) ∧ 
   intro x hx
   rw [List.mem_replicate] at hx
   omega
+
+/-- `chunks127` on a concrete string: 300 bytes = 127 + 127 + 46. -/
+example : (chunks127 (List.replicate 300 65)).map List.length = [127, 127, 46] := by decide +kernel
 
 end TonVerif.Properties.C06
